@@ -230,7 +230,8 @@ class ContentComparer:
                 # entity found in both ref and l10n, check for changed
                 refent = ref_entities[entity_id]
                 l10nent = l10n_entities[entity_id]
-                if self.keyRE.search(entity_id):
+                # PO keys are tuples of msgid and msgctxt, not names of strings
+                if isinstance(entity_id, str) and self.keyRE.search(entity_id):
                     keys += 1
                 else:
                     if refent.equals(l10nent):
